@@ -21,13 +21,13 @@ class Ctx:
     def body(self, path):
         return self.facts.body(path)
 
-    def paths(self, fn, stop=(), pure_extra=(), max_paths=400, args=None, inline=True, max_depth=6, stop_trait_methods=(), opaque_prefixes=()):
-        key = (fn if isinstance(fn, str) else fn['path'], tuple(sorted(stop)), tuple(sorted(pure_extra)), inline, repr(args), max_depth, tuple(sorted(stop_trait_methods)), tuple(opaque_prefixes))
+    def paths(self, fn, stop=(), pure_extra=(), max_paths=400, args=None, inline=True, max_depth=6, stop_trait_methods=(), opaque_prefixes=(), transparent=()):
+        key = (fn if isinstance(fn, str) else fn['path'], tuple(sorted(stop)), tuple(sorted(pure_extra)), inline, repr(args), max_depth, tuple(sorted(stop_trait_methods)), tuple(opaque_prefixes), tuple(transparent))
         if key not in self._cache:
             body = self.facts.body(fn) if isinstance(fn, str) else fn
             if body is None:
                 return None
-            eng = T.Engine(self.facts, T.Policy(stop=stop, pure_extra=pure_extra, inline=inline, max_depth=max_depth, stop_trait_methods=stop_trait_methods, no_inline_prefixes=opaque_prefixes), max_paths=max_paths)
+            eng = T.Engine(self.facts, T.Policy(stop=stop, pure_extra=pure_extra, inline=inline, max_depth=max_depth, stop_trait_methods=stop_trait_methods, no_inline_prefixes=opaque_prefixes, transparent=transparent), max_paths=max_paths)
             self._cache[key] = eng.summarize(body, args)
         return self._cache[key]
 
@@ -854,3 +854,9 @@ def new_type(facts, adt_path):
     meta = equiv.reference(facts.config).get('#meta') or {}
     adts = meta.get('adts')
     return bool(adts) and isinstance(adt_path, str) and '::' in adt_path and adt_path not in adts and adt_path in facts.adts
+
+
+def known_fns(facts):
+    """paths of the functions the reference tree has (empty set if there is no reference)"""
+    import equiv
+    return set(((equiv.reference(facts.config).get('#meta') or {}).get('fns') or {}).keys())
